@@ -380,10 +380,19 @@ func Run(j *job.Job, s *job.Sink) {
 					}()
 					ms := yang.NewModules()
 					var perr []string
-					for _, i := range p {
+					for n, i := range p {
 						if err := ms.Parse(fs[i].Text, fs[i].Name); err != nil {
 							perr = append(perr, "LOAD "+err.Error())
 						}
+						// one repetition in eight has a processing run after every load (what
+						// a run makes of a half-loaded set must not show in the last one), and
+						// one in eight is processed twice
+						if k%8 == 7 && n < len(p)-1 {
+							ms.Process()
+						}
+					}
+					if k%8 == 6 {
+						ms.Process()
 					}
 					errs := ms.Process()
 					if msg := sortedAndUnique(errs); msg != "" {
